@@ -80,6 +80,15 @@ def glue(spec):
     body += "        m.expect_eq(\"message\", \"get_detailed_message\", &subj, &strum::EnumMessage::get_detailed_message(e), &dets[*idx], true);\n"
     body += "        m.expect_eq(\"message\", \"get_documentation\", &subj, &strum::EnumMessage::get_documentation(e), &docs[*idx], true);\n"
     body += "        vmon::names::check_set(m, \"message\", \"get_serializations\", &subj, strum::EnumMessage::get_serializations(e), sers[*idx], true);\n"
+    # the same getters reached the other ways a caller can reach them: through a trait object and through a double reference
+    body += "        { let dyn__ref: &dyn strum::EnumMessage = e;\n"
+    body += "          m.expect_eq(\"message\", \"get_message via &dyn\", &subj, &dyn__ref.get_message(), &msgs[*idx], true);\n"
+    body += "          m.expect_eq(\"message\", \"get_detailed_message via &dyn\", &subj, &dyn__ref.get_detailed_message(), &dets[*idx], true);\n"
+    body += "          m.expect_eq(\"message\", \"get_documentation via &dyn\", &subj, &dyn__ref.get_documentation(), &docs[*idx], true); }\n"
+    body += "        { use strum::EnumMessage as _; let dbl__ref = &e;\n"
+    body += "          m.expect_eq(\"message\", \"get_message via &&E\", &subj, &dbl__ref.get_message(), &msgs[*idx], true);\n"
+    body += "          m.expect_eq(\"message\", \"get_detailed_message via &&E\", &subj, &dbl__ref.get_detailed_message(), &dets[*idx], true);\n"
+    body += "          m.expect_eq(\"message\", \"get_documentation via &&E\", &subj, &dbl__ref.get_documentation(), &docs[*idx], true); }\n"
     body += "    }\n}\n"
     return body
 
